@@ -39,6 +39,7 @@ def parse_type(t):
 def main():
     name, src, out = sys.argv[1], sys.argv[2], sys.argv[3]
     defs = []
+    meta = []
     skipped = []
     commented = []
     is_func = False
@@ -79,8 +80,10 @@ def main():
                 cond = "(some %s)" % mm.group(1)
                 ptype = mm.group(2)
             params.append("⟨%s, %s, %s⟩" % (lean_str(pname), cond, parse_type(ptype)))
-        defs.append((int(idtext, 16), "/- %s -/ ⟨%s, 0x%s, %s, [%s], %s, %s, %s⟩" % (
+        meta.append((int(idtext, 16), result, is_func, bool([t for t in ptext.split()])))
+        defs.append((int(idtext, 16), "/- %s -/ ⟨%s, 0x%s, %s, [%s], %s, %s, %s, %s⟩" % (
             body.replace("-/", "- /"), lean_str(dname), idtext, lean_str(idtext), ", ".join(params), lean_str(result),
+            parse_type(result),
             "true" if is_func else "false", lean_str(body))))
     defs = [t for _, t in sorted(defs, key=lambda x: x[0])]   # by id: the registry is sorted the same way
     chunk = 40
@@ -95,6 +98,22 @@ def main():
             n += 1
         f.write("def schema%sChunks : List (List Def) := [%s]\n\n" % (name, ", ".join("schema%s%d" % (name, k) for k in range(n))))
         f.write("def schema%s : List Def := schema%sChunks.flatten\n\n" % (name, name))
+        # the tables `mkTypeTable` / `mkNonEnum` compute, as literals (Lean proves them equal)
+        tt = {}
+        order = []
+        nonenum = []
+        for (cid, res, isf, hasp) in sorted(meta):
+            if isf:
+                continue
+            if res not in tt:
+                tt[res] = []
+                order.append(res)
+            tt[res].append(cid)
+            if hasp and res not in nonenum:
+                nonenum.append(res)
+        f.write("def typeTable%s : List (BStr × List Nat) := [\n  %s\n]\n\n" % (
+            name, ",\n  ".join("(%s, [%s])" % (lean_str(r), ", ".join("0x%08x" % c for c in tt[r])) for r in order)))
+        f.write("def nonEnum%s : List BStr := [%s]\n\n" % (name, ", ".join(lean_str(r) for r in nonenum)))
         f.write("/-- definitions that occur only inside comments of the file (name, id): not part of the schema -/\n")
         f.write("def schema%sCommented : List (String × Nat) := [%s]\n\n" % (name, ", ".join(commented)))
         f.write("/-- lines of the file that carry no constructor id (builtins) and are not translated -/\n")
